@@ -56,7 +56,7 @@ package lisp
 //@   ensures  [frame-flags] result == nil ==> !s.Frames[len(s.Frames)-1].Terminal && !s.Frames[len(s.Frames)-1].TROBlock
 //@   ensures  [frame-iters] result == nil ==> s.Frames[len(s.Frames)-1].TailIterations == 0
 //@   ensures  [height-first] result == nil && old(len(s.Frames)) == 0 ==> s.Frames[0].HeightLogical == 0
-//@   ensures  [height-next] result == nil && old(len(s.Frames)) > 0 && old(s.Frames[len(s.Frames)-1].HeightLogical) < 9223372036854775807 ==> s.Frames[len(s.Frames)-1].HeightLogical == old(s.Frames[len(s.Frames)-1].HeightLogical) + 1
+//@   ensures  [height-next] result == nil && old(len(s.Frames)) > 0 ==> s.Frames[len(s.Frames)-1].HeightLogical == old(s.Frames[len(s.Frames)-1].HeightLogical) + 1
 //@   ensures  [INV-physical-bound] physBound(s)
 //@   modifies s.Frames, CallFrame.*
 //@   property C04 C05 C18
@@ -86,7 +86,7 @@ package lisp
 
 //@ func (*Runtime).beginEval
 //@   inline
-//@   requires r != nil && r.evalDepth >= 0 && r.evalDepth < 4611686018427387904
+//@   requires r != nil
 //@   ensures  [depth] r.evalDepth == old(r.evalDepth) + 1
 //@   ensures  [refill-outermost] old(r.evalDepth) == 0 ==> r.steps == 0
 //@   ensures  [no-refill-nested] old(r.evalDepth) > 0 ==> unchanged(r.steps, r.totalSteps)
@@ -226,7 +226,7 @@ package lisp
 //@   property C06
 
 //@ func (*LEnv).checkLimits
-//@   requires rtOK(env) && env.Runtime.steps >= 0 && env.Runtime.steps < 9223372036854775807
+//@   requires rtOK(env)
 //@   ensures  [fast-path] ctx == nil && env.Runtime.maxSteps == 0 ==> result == nil && env.Runtime.steps == old(env.Runtime.steps)
 //@   ensures  [counts] !(ctx == nil && old(env.Runtime.maxSteps) == 0) ==> env.Runtime.steps == old(env.Runtime.steps) + 1
 //@   ensures  [step-limit] old(env.Runtime.maxSteps) > 0 && old(env.Runtime.steps) + 1 > old(env.Runtime.maxSteps) ==> result != nil && result.Type == LError && result.Str == CondStepLimitExceeded
@@ -238,7 +238,7 @@ package lisp
 //@   property C04
 
 //@ func (*LEnv).checkLimitsSlow
-//@   requires rtOK(env) && env.Runtime.steps >= 0 && env.Runtime.steps < 9223372036854775807
+//@   requires rtOK(env)
 //@   ensures  [counts] env.Runtime.steps == old(env.Runtime.steps) + 1
 //@   ensures  [step-limit] env.Runtime.maxSteps > 0 && env.Runtime.steps > env.Runtime.maxSteps ==> result != nil && result.Type == LError && result.Str == CondStepLimitExceeded
 //@   ensures  [cancelled] !(env.Runtime.maxSteps > 0 && env.Runtime.steps > env.Runtime.maxSteps) && ctx != nil && uf("errCtx", ctx) != nil ==> result != nil && result.Type == LError && result.Str == CondContextCancelled
@@ -357,3 +357,115 @@ package lisp
 //@ frame writers(singletonNil) subset { init } property C09 C15
 //@ frame writers(singletonTrue) subset { init } property C09 C15
 //@ frame writers(singletonFalse) subset { init } property C09 C15
+
+// ---------------------------------------------------------------- the evaluator knot: balance (C05) and limits (C04)
+
+// Counters are assumed never to reach 2^62 (a step per nanosecond would need 146 years).
+//@ assume-range Runtime.steps 0 4611686018427387904
+//@ assume-range Runtime.evalNesting 0 4611686018427387904
+//@ assume-range Runtime.evalDepth 0 4611686018427387904
+//@ assume-range CallFrame.HeightLogical 0 4611686018427387904
+
+//@ pred BAL(env) = env.Runtime == old(env.Runtime) && env.Runtime.Stack == old(env.Runtime.Stack) && len(env.Runtime.Stack.Frames) == old(len(env.Runtime.Stack.Frames)) && env.Runtime.evalNesting == old(env.Runtime.evalNesting) && len(env.Runtime.conditionStack) == old(len(env.Runtime.conditionStack)) && env.Runtime.evalDepth == old(env.Runtime.evalDepth)
+//@ pred KEEP(env) = rtOK(env) && env.Runtime == old(env.Runtime) && env.Runtime.Stack == old(env.Runtime.Stack) && len(env.Runtime.Stack.Frames) == old(len(env.Runtime.Stack.Frames)) && env.Runtime.evalNesting == old(env.Runtime.evalNesting) && len(env.Runtime.conditionStack) == old(len(env.Runtime.conditionStack))
+
+//@ functype LBuiltin
+//@   requires arg0 != nil && arg0.Runtime != nil && arg0.Runtime.Stack != nil
+//@   ensures  BAL(arg0)
+//@   ensures-on-panic BAL(arg0)
+
+//@ func (*LEnv).eval
+//@   requires rtOK(env)
+//@   ensures  [balanced] BAL(env)
+//@   nopanic
+//@   property C05 C04
+
+//@ func (*LEnv).evalSExpr
+//@   requires rtOK(env)
+//@   ensures  [balanced] BAL(env)
+//@   ensures-on-panic [balanced-on-panic] BAL(env)
+//@   property C05
+
+//@ func (*LEnv).evalSExprCells
+//@   requires rtOK(env)
+//@   ensures  [balanced] BAL(env)
+//@   ensures  [loc-restored] env.loc == old(env.loc)
+//@   ensures-on-panic [balanced-on-panic] BAL(env)
+//@   ensures-on-panic [loc-restored-on-panic] env.loc == old(env.loc)
+//@   property C05 C18
+
+//@ func (*LEnv).funCall
+//@   requires rtOK(env)
+//@   ensures  [balanced] BAL(env)
+//@   ensures-on-panic [balanced-on-panic] BAL(env)
+//@   property C05 C02
+
+//@ func (*LEnv).specialOpCall
+//@   requires rtOK(env)
+//@   ensures  [balanced] BAL(env)
+//@   ensures-on-panic [balanced-on-panic] BAL(env)
+//@   property C05 C02
+
+//@ func (*LEnv).macroCall
+//@   requires rtOK(env)
+//@   ensures  [balanced] BAL(env)
+//@   ensures-on-panic [balanced-on-panic] BAL(env)
+//@   property C05 C02
+
+//@ func (*LEnv).call
+//@   requires rtOK(env)
+//@   ensures  [balanced] BAL(env)
+//@   ensures-on-panic [balanced-on-panic] BAL(env)
+//@   property C05
+
+//@ func (*LEnv).load
+//@   requires rtOK(env)
+//@   loop 1 (rangeindex) invariant -1 <= rangeindex && rangeindex < len(exprs)
+//@   loop 1 (rangeindex) invariant KEEP(env) && env.Runtime.evalDepth == old(env.Runtime.evalDepth) + 1
+//@   ensures  [balanced] BAL(env)
+//@   ensures  [package-restored] env.Runtime.Package == old(env.Runtime.Package)
+//@   ensures-on-panic [balanced-on-panic] BAL(env)
+//@   ensures-on-panic [package-restored-on-panic] env.Runtime.Package == old(env.Runtime.Package)
+//@   property C05 C04 C08
+
+//@ func (*LEnv).Eval
+//@   requires rtOK(env)
+//@   ensures  [balanced] BAL(env)
+//@   ensures-on-panic [balanced-on-panic] BAL(env)
+//@   property C05 C04
+
+//@ func (*LEnv).EvalContext
+//@   requires rtOK(env)
+//@   ensures  [balanced] BAL(env)
+//@   ensures-on-panic [balanced-on-panic] BAL(env)
+//@   property C05 C04
+
+//@ func (*LEnv).EvalSExpr
+//@   requires rtOK(env)
+//@   ensures  [balanced] BAL(env)
+//@   ensures-on-panic [balanced-on-panic] BAL(env)
+//@   property C05
+
+//@ func (*LEnv).FunCall
+//@   requires rtOK(env)
+//@   ensures  [balanced] BAL(env)
+//@   ensures-on-panic [balanced-on-panic] BAL(env)
+//@   property C05
+
+//@ func (*LEnv).FunCallContext
+//@   requires rtOK(env)
+//@   ensures  [balanced] BAL(env)
+//@   ensures-on-panic [balanced-on-panic] BAL(env)
+//@   property C05
+
+//@ func (*LEnv).MacroCall
+//@   requires rtOK(env)
+//@   ensures  [balanced] BAL(env)
+//@   ensures-on-panic [balanced-on-panic] BAL(env)
+//@   property C05
+
+//@ func (*LEnv).SpecialOpCall
+//@   requires rtOK(env)
+//@   ensures  [balanced] BAL(env)
+//@   ensures-on-panic [balanced-on-panic] BAL(env)
+//@   property C05
